@@ -36,6 +36,12 @@ def corpus(ck, quick):
     ho = hostile.operator_programs(ck.rng.fork("ops"), True)
     for name, src, m in (hs + ho)[:None if not quick else 60]:
         progs.append((name, src, m, []))
+    # the byte-exact string / index battery of C13 (every string function over boundary arguments, conversions from
+    # bytes and code points including surrogates and out-of-range values)
+    from . import C13
+    exprs = C13.checks(True, ck.rng.fork("c13"))
+    for i in range(0, len(exprs), 400):
+        progs.append(("strings/%d" % (i // 400), "\n".join(C13.wrap(e) for e in exprs[i:i + 400]) + "\n", [], []))
     try:
         from ..gen import profiles
         for name, src, m in profiles.gc_workload(ck.rng.fork("profiles"), 300 if quick else 6000):
